@@ -350,6 +350,14 @@ class Folder:
             return d
         if isinstance(node, ast.Subscript):
             base = ev(node.value)
+            if isinstance(base, ClassRef) and base.ci.has_base_named("EnumMap") and not isinstance(node.slice, ast.Slice):
+                k = ev(node.slice)
+                if k is UNKNOWN:
+                    return UNKNOWN
+                r = self.enum_lookup(base.ci, k, UNKNOWN)
+                if r is UNKNOWN:
+                    raise KeyError(k)
+                return r
             if base is UNKNOWN or isinstance(base, (ClassRef, Instance)):
                 return UNKNOWN
             sl = node.slice
